@@ -2,7 +2,7 @@
    before the repair, and spec-level facts (order independence of the verdict clause, when a call succeeds, tie of veq to C09's
    equals, the global mock alone behaves as one mock). *)
 From Coq Require Import ZArith NArith Bool List Lia Permutation.
-From CppUVerif Require Import lib.CInt lib.Str C08_Model C08_Proofs C08_Proofs2 C08_Scopes.
+From CppUVerif Require Import lib.CInt lib.Str C08_Model C08_Proofs C08_Proofs2 C08_Scopes C08_Count.
 From CppUVerif Require C09_Model C09_Proofs.
 Import ListNotations.
 Local Open Scope N_scope.
@@ -208,6 +208,29 @@ Lemma verdict_every_scope ops k :
 Proof.
   intros Hp Hj. destruct (W_refines_M ops k Hp Hj) as [LR _]. destruct (proj_lift_fail _ _ _ LR) as [_ [_ C]].
   unfold passed_obs in C. rewrite <- verdict_scopes. destruct (o_fail (runw ops)); destruct (mr_fail (expectedw k)); try discriminate C; split; auto; discriminate.
+Qed.
+
+(* ------------------------------------------------------------------ with the counting theorem: the spec holds outright *)
+Lemma judgedw_scope k s : judgedw k = true -> In s (0 :: scopes_of k) -> judged (scope_canon k s) = true.
+Proof. unfold judgedw. rewrite forallb_forall. intros H Hs. apply H. exact Hs. Qed.
+Theorem run_meets_spec ops : spec ops (run ops) = true.
+Proof. apply run_meets_spec_partial. intros k _ Hj. apply verdict_counting. exact Hj. Qed.
+Theorem runw_meets_specw ops : specw ops (runw ops) = true.
+Proof. apply runw_meets_specw_partial. intros k s _ Hj Hs. apply verdict_counting. apply judgedw_scope; assumption. Qed.
+(* the verdict clause itself: the model passes iff the multisets (strict: the sequences) agree -- in every scope *)
+Theorem verdict_exact ops k : parse ops = Some k -> judged k = true -> (o_fail (run ops) = None <-> verdict_ok k = true).
+Proof.
+  intros Hp Hj. destruct (L_refines_M ops k Hp Hj) as [LR _]. unfold expected in LR. destruct (proj_lift_fail _ _ _ LR) as [_ [_ C]].
+  rewrite (verdict_counting k Hj). unfold expected. cbn [fst]. unfold passed_obs in C.
+  destruct (o_fail (run ops)); destruct (mr_fail (expected_res k)); try discriminate C; split; auto; discriminate.
+Qed.
+Theorem verdict_exact_scopes ops k :
+  parsew ops = Some k -> judgedw k = true ->
+  (o_fail (runw ops) = None <-> forall s, In s (0 :: scopes_of k) -> verdict_ok (scope_canon k s) = true).
+Proof.
+  intros Hp Hj. rewrite (verdict_every_scope ops k Hp Hj). split; intros H s Hs; specialize (H s Hs).
+  - rewrite (verdict_counting _ (judgedw_scope k s Hj Hs)), H. reflexivity.
+  - rewrite (verdict_counting _ (judgedw_scope k s Hj Hs)) in H. destruct (fst (expected (scope_canon k s))); [discriminate H|reflexivity].
 Qed.
 
 (* ------------------------------------------------------------------ the global mock alone is one mock *)
